@@ -36,11 +36,11 @@ ENGINES = ["harness", "models"]
 ASSUMPTIONS = ["divisors of floordiv / ceildiv / mod are positive constants (the property's domain)",
                "semi-affine forms that xDSL rejects with NotImplementedError are out of scope and counted",
                "the oracle evaluator in xv/c26_ref.py is correct"]
-JOB_TIMEOUT = {"quick": 600, "thorough": 3000}
+JOB_TIMEOUT = {"quick": 3600, "thorough": 14400}
 
 RSUB_KEY = "rsub-int-minus-expr-swapped"
 # (shards, cases per shard); importing xdsl costs ~2 CPU-s per shard, a case ~25-40 ms
-SHARDS = {"quick": {"expr": (16, 240), "map": (8, 120)}, "thorough": {"expr": (64, 1500), "map": (32, 600)}}
+SHARDS = {"quick": {"expr": (16, 240), "map": (8, 120)}, "thorough": {"expr": (48, 1500), "map": (16, 900)}}
 
 
 class HarnessBug(Exception):
